@@ -42,17 +42,26 @@ pub const ERR_RUNTIME_MISSING_ACCOUNT: u64 = 0xFFFF_0007_0000_0000;
 pub const ERR_RUNTIME_EXECUTABLE_MODIFIED: u64 = 0xFFFF_0008_0000_0000;
 pub const ERR_MISSING_SIGNATURE_FOR_FEE: u64 = 0xFFFF_0009_0000_0000;
 
-#[derive(Clone, PartialEq, Eq, Debug, Default)]
+#[derive(Clone, Debug, Default)]
 pub struct Acct {
     pub lamports: u64,
     pub data: Vec<u8>,
     pub owner: Pubkey,
     pub executable: bool,
+    /// memoised canonical digest (see canon.rs); reset on every mutable access through the store
+    pub digest: std::sync::OnceLock<[u8; 32]>,
 }
+
+impl PartialEq for Acct {
+    fn eq(&self, o: &Self) -> bool {
+        self.lamports == o.lamports && self.owner == o.owner && self.executable == o.executable && self.data == o.data
+    }
+}
+impl Eq for Acct {}
 
 impl Acct {
     pub fn new(lamports: u64, data: Vec<u8>, owner: Pubkey) -> Self {
-        Acct { lamports, data, owner, executable: false }
+        Acct { lamports, data, owner, executable: false, digest: Default::default() }
     }
 }
 
@@ -79,7 +88,7 @@ impl Default for Store {
             (spl_associated_token_account::id(), bpf_loader),
             (marginfi::ID, upgradeable),
         ] {
-            s.set(k, Acct { lamports: 1, data: vec![], owner, executable: true });
+            s.set(k, Acct { lamports: 1, data: vec![], owner, executable: true, digest: Default::default() });
         }
         s
     }
@@ -93,7 +102,11 @@ impl Store {
         self.accts.insert(k, Arc::new(a));
     }
     pub fn get_mut(&mut self, k: &Pubkey) -> Option<&mut Acct> {
-        self.accts.get_mut(k).map(Arc::make_mut)
+        self.accts.get_mut(k).map(|a| {
+            let a = Arc::make_mut(a);
+            a.digest = Default::default();
+            a
+        })
     }
     pub fn data(&self, k: &Pubkey) -> &[u8] {
         &self.accts.get(k).unwrap_or_else(|| panic!("no account {k}")).data
@@ -484,7 +497,7 @@ struct Marshalled {
 }
 
 fn empty_acct() -> Acct {
-    Acct { lamports: 0, data: Vec::new(), owner: system_program::id(), executable: false }
+    Acct { lamports: 0, data: Vec::new(), owner: system_program::id(), executable: false, digest: Default::default() }
 }
 
 fn marshal(
@@ -572,7 +585,7 @@ fn read_back(m: &Marshalled, k: &Pubkey, rec: usize, pre_executable: bool) -> Ac
         let len = *(base.add(off) as *const u64) as usize;
         off += 8;
         let data = std::slice::from_raw_parts(base.add(off), len).to_vec();
-        Acct { lamports, data, owner, executable: pre_executable }
+        Acct { lamports, data, owner, executable: pre_executable, digest: Default::default() }
     }
 }
 
@@ -692,7 +705,7 @@ pub fn process_tx(store: &mut Store, tx: &Tx) -> TxResult {
             solana_program::sysvar::instructions::store_current_index(&mut sysvar_data, i as u16);
             work.insert(
                 sysvar_key,
-                Arc::new(Acct { lamports: 1, data: sysvar_data.clone(), owner: sysvar::id(), executable: false }),
+                Arc::new(Acct { lamports: 1, data: sysvar_data.clone(), owner: sysvar::id(), executable: false, digest: Default::default() }),
             );
         }
         let metas: Vec<(Pubkey, bool, bool)> = ix
